@@ -5,6 +5,7 @@ mod corpus;
 mod mon;
 mod props;
 mod refs;
+mod sm2x;
 
 use mon::Ctx;
 use std::time::Instant;
